@@ -24,6 +24,7 @@ type c07Op struct {
 	N     int    `json:"n,omitempty"`     // burst: number of concurrent copies
 	Fail  bool   `json:"fail,omitempty"`  // sendiq: the transport write fails
 	Early bool   `json:"early,omitempty"` // sendiq: the response is routed from inside the transport Write (before SendIQ returns)
+	Late  bool   `json:"late,omitempty"`  // sendiq: context whose Err() turns non-nil on cancel but whose Done() never fires: the canceller goroutine never removes the entry (the window between cancellation and clean-up, held open)
 }
 type c07In struct {
 	Component bool    `json:"component,omitempty"`
@@ -39,7 +40,7 @@ func (c07) RunFn() string { return "run_C07" }
 func (c07) Workers() int  { return 8 }
 func (c07) Journal() bool { return true }
 func (c07) Rule() string {
-	return "forced schedules on the real Router/Client/Component: SendIQ (ids distinct or clashing, write ok or failing, response routed from inside the transport write i.e. before SendIQ returns), matching / duplicate / foreign responses routed synchronously, bursts of 2-6 concurrent copies of one response released together through the exported IQResultRouteLock, receiver reading or abandoning its channel, context cancellation before the response; every routing call runs under a watchdog (a call that does not return is a blocked router); distinct = op sequence shape; non-trivial = at least one request and one response"
+	return "forced schedules on the real Router/Client/Component: SendIQ (ids distinct or clashing, write ok or failing, response routed from inside the transport write i.e. before SendIQ returns), matching / duplicate / foreign responses routed synchronously, bursts of 2-6 concurrent copies of one response released together through the exported IQResultRouteLock, receiver reading or abandoning its channel, context cancellation before the response, with the clean-up goroutine run or held back (context whose Done() never fires); every routing call runs under a watchdog (a call that does not return is a blocked router); distinct = op sequence shape; non-trivial = at least one request and one response"
 }
 func (c07) Decode(raw json.RawMessage) (interface{}, error) {
 	var in c07In
@@ -65,6 +66,8 @@ func (c07) Gen(r *rand.Rand, tier string) []interface{} {
 		// clashing ids
 		c07In{Ops: []c07Op{{Op: "sendiq", ID: 1}, {Op: "sendiq", ID: 1}, {Op: "arrive", ID: 1}, {Op: "arrive", ID: 1}, {Op: "recv", Req: 0}, {Op: "recv", Req: 1}}},
 		c07In{Ops: []c07Op{{Op: "sendiq", ID: 1, Fail: true}, {Op: "arrive", ID: 1}}},
+		// response in the window between cancellation and clean-up
+		c07In{Ops: []c07Op{{Op: "sendiq", ID: 1, Late: true}, {Op: "cancel", Req: 0}, {Op: "arrive", ID: 1}, {Op: "arrive", ID: 1}}},
 	)
 	for i := 0; i < n; i++ {
 		in := c07In{Component: r.Intn(3) == 0}
@@ -73,7 +76,7 @@ func (c07) Gen(r *rand.Rand, tier string) []interface{} {
 		for j := 0; j < l; j++ {
 			switch c := r.Intn(20); {
 			case c < 6 || nreq == 0:
-				in.Ops = append(in.Ops, c07Op{Op: "sendiq", ID: 1 + r.Intn(3), Fail: r.Intn(8) == 0, Early: r.Intn(6) == 0})
+				in.Ops = append(in.Ops, c07Op{Op: "sendiq", ID: 1 + r.Intn(3), Fail: r.Intn(8) == 0, Early: r.Intn(6) == 0, Late: r.Intn(4) == 0})
 				nreq++
 			case c < 12:
 				in.Ops = append(in.Ops, c07Op{Op: "arrive", ID: 1 + r.Intn(4)})
@@ -96,6 +99,7 @@ func (c07) Input(inp interface{}) Sx {
 	var acts []Sx
 	nch, nrt := 0, 0
 	var failed []bool
+	var late []bool
 	arrive := func(id int) {
 		acts = append(acts, L(Z(2), Zi(id), Zi(nrt)))
 		for s := 0; s < 3; s++ {
@@ -110,6 +114,7 @@ func (c07) Input(inp interface{}) Sx {
 			c := nch
 			nch++
 			failed = append(failed, o.Fail)
+			late = append(late, o.Late)
 			if o.Early && !o.Fail {
 				arrive(o.ID) // routed while the request is being written: after registration
 			}
@@ -135,7 +140,10 @@ func (c07) Input(inp interface{}) Sx {
 			}
 		case "cancel":
 			if o.Req < nch {
-				acts = append(acts, L(Z(5), Zi(o.Req)), L(Z(6), Zi(o.Req)))
+				acts = append(acts, L(Z(5), Zi(o.Req)))
+				if !late[o.Req] {
+					acts = append(acts, L(Z(6), Zi(o.Req)))
+				}
 			}
 		}
 	}
@@ -146,6 +154,17 @@ func (c07) Input(inp interface{}) Sx {
 	}
 	return LS(acts)
 }
+
+// c07LateCtx: cancellation is visible through Err() but Done() never signals.
+type c07LateCtx struct {
+	context.Context
+	mu  sync.Mutex
+	err error
+}
+
+func (c *c07LateCtx) Err() error            { c.mu.Lock(); defer c.mu.Unlock(); return c.err }
+func (c *c07LateCtx) Done() <-chan struct{} { return nil }
+func (c *c07LateCtx) cancel()               { c.mu.Lock(); c.err = context.Canceled; c.mu.Unlock() }
 
 type c07Sender struct {
 	c    *xmpp.Client
@@ -206,6 +225,7 @@ func (c07) Run(inp interface{}) Sx {
 		got    []int64
 		closed bool
 		failed bool
+		late   bool
 	}
 	var reqs []*req
 	read := func(rq *req) {
@@ -228,6 +248,10 @@ func (c07) Run(inp interface{}) Sx {
 		switch o.Op {
 		case "sendiq":
 			ctx, cancel := context.WithCancel(context.Background())
+			if o.Late {
+				lc := &c07LateCtx{Context: context.Background()}
+				ctx, cancel = lc, lc.cancel
+			}
 			iq, _ := stanza.NewIQ(stanza.Attrs{Type: stanza.IQTypeGet, Id: fmt.Sprint(o.ID), To: "srv"})
 			hook.mu2.Lock()
 			hook.failNext = o.Fail
@@ -238,7 +262,7 @@ func (c07) Run(inp interface{}) Sx {
 			}
 			hook.mu2.Unlock()
 			ch, err := sendIQ(ctx, iq)
-			rq := &req{ch: ch, cancel: cancel, failed: err != nil}
+			rq := &req{ch: ch, cancel: cancel, failed: err != nil, late: o.Late}
 			if (err != nil) != o.Fail {
 				rq.got = append(rq.got, -7) // unexpected SendIQ result
 			}
@@ -263,9 +287,11 @@ func (c07) Run(inp interface{}) Sx {
 		case "cancel":
 			if o.Req < len(reqs) {
 				reqs[o.Req].cancel()
-				// let the canceller goroutine run
-				for k := 0; k < 100; k++ {
-					time.Sleep(100 * time.Microsecond)
+				// let the canceller goroutine run (a late context never wakes it)
+				if !reqs[o.Req].late {
+					for k := 0; k < 100; k++ {
+						time.Sleep(100 * time.Microsecond)
+					}
 				}
 			}
 		}
@@ -332,9 +358,16 @@ func (c07) Oracle(inp interface{}, obs Sx) (string, string) {
 	var failed []bool
 	want := map[int]int{} // request -> number of values it must have received (0/1)
 	wantOrd := map[int]int{}
+	lateCancelled := map[int]bool{}
+	var isLate []bool
 	deliver := func(id int) {
 		if rq, ok := pending[id]; ok {
 			delete(pending, id)
+			if lateCancelled[rq] {
+				// cancelled but not yet cleaned up: the response is routed like any other packet
+				wantOrd[id]++
+				return
+			}
 			want[rq] = 1
 			return
 		}
@@ -346,6 +379,7 @@ func (c07) Oracle(inp interface{}, obs Sx) (string, string) {
 			rq := len(reqID)
 			reqID = append(reqID, o.ID)
 			failed = append(failed, o.Fail)
+			isLate = append(isLate, o.Late)
 			if !o.Fail {
 				pending[o.ID] = rq
 				if o.Early {
@@ -365,7 +399,9 @@ func (c07) Oracle(inp interface{}, obs Sx) (string, string) {
 		case "cancel":
 			if o.Req < len(reqID) && !cancelled[o.Req] {
 				cancelled[o.Req] = true
-				if cur, ok := pending[reqID[o.Req]]; ok && cur == o.Req {
+				if isLate[o.Req] {
+					lateCancelled[o.Req] = true
+				} else if cur, ok := pending[reqID[o.Req]]; ok && cur == o.Req {
 					delete(pending, reqID[o.Req])
 				}
 			}
@@ -407,7 +443,7 @@ func (c07) Key(inp interface{}) (string, bool) {
 	fmt.Fprintf(&b, "c%v:", in.Component)
 	nreq, narr := 0, 0
 	for _, o := range in.Ops {
-		fmt.Fprintf(&b, "%s%d.%d.%d%v%v,", o.Op[:2], o.ID, o.Req, o.N, o.Fail, o.Early)
+		fmt.Fprintf(&b, "%s%d.%d.%d%v%v%v,", o.Op[:2], o.ID, o.Req, o.N, o.Fail, o.Early, o.Late)
 		hist("op:" + o.Op)
 		if o.Op == "sendiq" {
 			nreq++
